@@ -115,6 +115,7 @@ def run_case(case, ch, workdir):
                 clock.touch(p)
         rt.sleep(ch.pick([0.0, 5.0], "t0"))
         content_at_last_hash = {}
+        key_at_hash = {}
         nops = ch.randint(4, 10, "nops")
         focus = ch.pick(["a", "a", "b", "d"], "focus")
         for op in range(nops):
@@ -187,9 +188,17 @@ def run_case(case, ch, workdir):
                 if kind == "dir":
                     probe("directory_hash")
                 content_at_last_hash[name] = (cur, clock.table[_rt.real_os_lstat(target).st_ino][0])
+                key_now = _statkey(clock, target)
+                same_state = key_at_hash.get(name) == key_now
+                key_at_hash.setdefault(name, key_now)
+                if got == ref:
+                    key_at_hash[name] = key_now
                 history.append(f"hash({name})")
                 if got != ref:
-                    sig = ("dir-nested-" if kind == "dir" else "") + _classify(history, name)
+                    # identical (mtime, ctime, size, inode) as when the stale entry was cached:
+                    # everything happened within one tick of the timestamp resolution
+                    cls = "rewrite-same-tick" if same_state else _classify(history, name)
+                    sig = ("dir-nested-" if kind == "dir" else "") + cls
                     violation(res, "stale-hash", sig, f"hash of {name} is {got[:12]}, but its current content hashes to {ref[:12]} (resolution {res_ns} ns); history={history}")
                     break
             elif what == "submit":
@@ -200,6 +209,7 @@ def run_case(case, ch, workdir):
                 with open(p, "rb") as f:
                     cur = f.read().decode()
                 status, val, events, extra = hc.submit(ch, workdir, workload.ReadFile(f=File(p)), cache, worker="debug")
+                sk = _statkey(clock, p)
                 _rt.install(rt)  # hc.submit switches the runtime; switch back
                 _rt.STAT_HOOK = clock.hook
                 probe("task_submission")
@@ -207,8 +217,10 @@ def run_case(case, ch, workdir):
                 if status != "ok":
                     violation(res, "unexpected-error", "submit", f"{val}; history={history}")
                     break
+                if val.get("out") == cur:
+                    key_at_hash[name] = sk
                 if val.get("out") != cur:
-                    violation(res, "stale-task-result", _classify(history, name), f"task returned {val.get('out')!r} but the file now contains {cur!r} (resolution {res_ns} ns); history={history}")
+                    violation(res, "stale-task-result", "rewrite-same-tick" if key_at_hash.get(name) == _statkey(clock, p) else _classify(history, name), f"task returned {val.get('out')!r} but the file now contains {cur!r} (resolution {res_ns} ns); history={history}")
                     break
             hsh.update(repr(history[-1] if history else "").encode())
     finally:
@@ -222,6 +234,12 @@ def run_case(case, ch, workdir):
     res["digest"] = hsh.hexdigest()[:20]
     res["sample"] = {"resolution_ns": res_ns, "history": history}
     return res
+
+
+def _statkey(clock, path):
+    st = _rt.real_os_lstat(path)
+    e = clock.table.get(st.st_ino, [0, 0])
+    return (e[0], e[1], st.st_size, st.st_ino)
 
 
 def _classify(history, name):
